@@ -7,6 +7,8 @@ from .. import core
 
 WRITERS = ("write_fits", "write_fits_mem", "write_fits_core")
 CLOSE = "ffclos"            # fits_close_file
+DELETE = "ffdelt"           # fits_delete_file: closes the handle and removes the file
+RELEASE = (CLOSE, DELETE)
 CREATE = ("ffinit", "ffimem")  # fits_create_file, fits_create_memfile
 REPORT_ONLY = ("ffrprt",)    # fits_report_error: printing is not checking
 THROWN = (frozenset(), True, frozenset())
@@ -83,7 +85,7 @@ def guard_classes(P, f):
     out = {}
     for g in P.functions.values():
         if g.kind == "dtor" and g.d.get("localClassOf") == f.usr:
-            closes = [i for i, cal in g.calls() if cal and cal["name"] == CLOSE]
+            closes = [i for i, cal in g.calls() if cal and cal["name"] in RELEASE]
             if closes:
                 out[g.cls] = g
     return out
@@ -93,7 +95,7 @@ def dtor_close_is_conditional(g):
     """in guard destructor g: is every close call control-dependent on the guard's own handle field being non-null?
     returns the field name or None."""
     for i, cal in g.calls():
-        if not cal or cal["name"] != CLOSE:
+        if not cal or cal["name"] not in RELEASE:
             continue
         fld = None
         for a in g.ancestors(i):
@@ -566,3 +568,58 @@ def ed6(P, C):
         C.ob("ED-6", f.name, "no-dropped-io-result", not bad, f.loc(bad[0]) if bad else f.where(),
              "no C library file operation with a discarded result" if not bad else
              "%s(...) at %s: its result is discarded; when it fails the writer still reports success although the file is not in place" % (f.nodes[bad[0]]["callee"]["name"], f.loc(bad[0])))
+
+
+def ed7(P, C):
+    """ED-7: a reported failure of the disk writer leaves no partial file behind."""
+    C.rule("ED-7", "write_fits (disk) leaves no file behind when it reports a failure: the guard that releases the handle during unwinding does "
+           "so with fits_delete_file (close AND remove), and the branch that reports a failed final close removes the file it created before "
+           "it throws. A partial file can otherwise be structurally complete (one transient write error while cfitsio flushes shifts the later "
+           "blocks) and load as a different table", floor=2)
+    fs_ = [f for f in P.fns("write_fits") if f.cls and "splinetable" in f.cls and f.unit == "driver"]
+    if len(fs_) != 1:
+        raise core.AnalysisBroken("ED-7: write_fits not found")
+    f = fs_[0]
+    guards = guard_classes(P, f)
+    if not guards:
+        C.ob("ED-7", "write_fits", "guard-deletes", False, f.where(), "no closing guard at all")
+    for gq, g in sorted(guards.items()):
+        rel = [(i, cal["name"]) for i, cal in g.calls() if cal and cal["name"] in RELEASE]
+        ok = bool(rel) and all(nm == DELETE for _, nm in rel)
+        C.ob("ED-7", "write_fits", "guard-deletes", ok, g.loc(rel[0][0]) if rel else g.where(),
+             "the unwinding guard releases the handle with fits_delete_file: the partial file goes with it" if ok else
+             "the unwinding guard only closes the file (fits_close_file): what was written so far stays on disk under the caller's name after a reported failure")
+    # the create call's path argument: the variables it is built from
+    creates = [i for i, cal in f.calls() if cal and cal["name"] in CREATE]
+    closes = [i for i, cal in f.calls() if cal and cal["name"] == CLOSE]
+    if len(creates) != 1 or not closes:
+        raise core.AnalysisBroken("ED-7: write_fits: create/close calls not found (%d/%d)" % (len(creates), len(closes)))
+    pathvars = set(f.nodes[x]["decl"]["id"] for a in f.args(creates[0])[1:2] for x in f.walk(a) if f.k(x) == "DeclRefExpr" and f.nodes[x]["decl"].get("kind") in ("Var", "ParmVar"))
+    RM = ("remove", "unlink", "unlinkat")
+
+    def transfer(st, e, b, j):
+        if e.get("kind") != "stmt":
+            return st
+        i = e["n"]
+        n = f.nodes[i]
+        cal = n.get("callee")
+        if cal and cal["name"] == CLOSE:
+            return frozenset({"closed"})
+        if cal and cal["name"] in RM and "closed" in st:
+            refs = set(f.nodes[x]["decl"]["id"] for a in f.args(i) for x in f.walk(a) if f.k(x) == "DeclRefExpr")
+            if refs & pathvars:
+                return frozenset(x for x in st if x != "closed") | {"removed"}
+        return st
+    IN, OUT = core.dataflow(f, frozenset({"pre"}), transfer, lambda a, b: a | b)
+    bad = []
+    for b, blk in f.blocks.items():
+        if b not in IN:
+            continue
+        st = IN[b]
+        for j, e in enumerate(blk["elems"]):
+            if e.get("kind") == "stmt" and f.k(e["n"]) == "CXXThrowExpr" and "closed" in st:
+                bad.append(e["n"])
+            st = transfer(st, e, b, j)
+    C.ob("ED-7", "write_fits", "failed-close-removes-the-file", not bad, f.loc(bad[0]) if bad else f.loc(closes[0]),
+         "every throw after the explicit close is preceded by remove/unlink of the path handed to fits_create_file" if not bad else
+         "the throw at %s reports a failed close (the handle is gone, the guard disarmed) and leaves the incomplete file on disk under the caller's name" % f.loc(bad[0]))
